@@ -122,6 +122,37 @@ def rejection_table(ctx, names):
             pass
         except Exception as e:
             ctx.violation(f"wrong-rejection:{label}", f"a task with {label} raised {type(e).__name__}", {"kind": "reject-task", "spec": spec})
+    # the same task-level rows in an interpreter started with -O (assert statements compiled away: a validator written as `assert` stops rejecting there);
+    # a fresh interpreter, nothing of this process is shared
+    import subprocess, sys, os, json as _json
+    rows = [("negative weight", {"vars": [("multiobj", ([-1.0] * 2, [1.0] * 2))], "obj": "multi2", "weights": [0.5, -0.5]}),
+            ("inverted bounds", {"vars": [("cont", (2.0, -2.0))], "obj": "sphere"}),
+            ("equal bounds", {"vars": [("cont", (2.0, 2.0))], "obj": "sphere"}),
+            ("inverted multi bounds", {"vars": [("contmulti", ([0.0, 3.0], [1.0, 1.0]))], "obj": "sphere"}),
+            ("bound length mismatch", {"vars": [("contmulti", ([0.0, 3.0], [1.0]))], "obj": "sphere"}),
+            ("inverted multi-objective bounds", {"vars": [("multiobj", ([1.0, 0.0], [0.0, 1.0]))], "obj": "multi2", "weights": [0.5, 0.5]}),
+            ("binary n_vars=0", {"vars": [("binary", 0)], "obj": "sphere"})]
+    prog = ("import sys, json\nfrom pydantic import ValidationError\nfrom pv import search\nout = []\n"
+            "for label, spec in json.loads(sys.stdin.read()):\n"
+            "    try:\n        search.build_task(spec); out.append([label, 'accepted'])\n"
+            "    except (ValueError, ValidationError): out.append([label, 'rejected'])\n"
+            "    except Exception as e: out.append([label, type(e).__name__])\n"
+            "print('@@O@@' + json.dumps(out))\n")
+    try:
+        pr = subprocess.run([sys.executable, "-O", "-c", prog], input=_json.dumps(rows), capture_output=True, text=True, timeout=300,
+                            cwd=str(__import__("pathlib").Path(__file__).resolve().parents[2]), env=dict(os.environ))
+        got = _json.loads(pr.stdout.split("@@O@@")[-1])
+    except Exception as e:
+        got = None
+        ctx.broke("search:C06 rejection rows under python -O", f"the probe interpreter gave no answer: {type(e).__name__}: {str(e)[:200]}")
+    for label, verdict in (got or []):
+        n += 1
+        spec = dict(rows)[label]
+        if verdict == "accepted":
+            ctx.violation(f"not-rejected-under-O:{label}", f"a task with {label} is accepted at construction when Python runs with -O (assertions disabled)",
+                          {"kind": "reject-task", "spec": spec, "interpreter": "python -O"})
+        elif verdict != "rejected":
+            ctx.violation(f"wrong-rejection-under-O:{label}", f"a task with {label} raised {verdict} under python -O", {"kind": "reject-task", "spec": spec, "interpreter": "python -O"})
     return n
 
 
